@@ -9,6 +9,18 @@ CHECKS = {
    tech='property-based differential testing (Hypothesis deck generator; abstract MCNP model vs independent TRIPOLI-4 point evaluator)',
    text='Generated level-0 decks are converted and every decided sample point (uniform + bisected near-boundary points) must lie in exactly the volume numbered like its owning MCNP cell, or in none when the owner has zero importance. Holds on the explored decks only; no absence claim.',
    note='Trusted: harness MCNP model (DESIGN 4.2) and TRIPOLI-4 evaluator (DESIGN 4.1), float64 sign decisions under the stated decidability rule.'),
+ 'C02': dict(cat='exploration', ref='5/C02',
+   tech='property-based testing: generated surface cards, sense/locus differential oracle plus randomized polynomial-identity test',
+   text='Every generated elementary surface card (all mnemonics of the statement) is converted in a two-probe deck; sense and locus are compared with the MCNP equation on uniform and near-surface points, and the T4 surface function must be a constant multiple (of the right sign) of the MCNP function on generic points.',
+   note='Trusted: MCNP surface equations and T4 keyword meanings as written in DESIGN 4.1/4.2; SQ positive at centre judged on locus only.'),
+ 'C03': dict(cat='exploration', ref='5/C03',
+   tech='property-based testing: generated macrobody cards, parametric-solid and facet half-space differential oracle',
+   text='Every generated macrobody (all kinds/parameterisations, any orientation and handedness) is probed through the cells -b, +b, -b.k, +b.k; membership of uniform and facet-bisected points is compared with the parametric solid and the outward facet half-spaces.',
+   note='Trusted: macrobody definitions and facet numbering of DESIGN 4.2; ELL(+) formula adopted from the repository as documented MCNP behaviour; TRC facet 1 judged on the body side of the apex.'),
+ 'C04': dict(cat='exploration', ref='5/C04',
+   tech='property-based testing: generated rigid motions x spellings x base objects, inverse-image differential oracle',
+   text='Surfaces with a TR number, cells with TRCL/*TRCL (numbered or inline) and implicit 1000*cell+surf surfaces are converted and compared point-wise with the base object evaluated at the inverse image of the point; TR cards in 3/12/13-entry, degree and abbreviated forms.',
+   note='Trusted: MCNP TR conventions of DESIGN 4.2; abbreviated matrices only on TR cards and only where the completion is unique.'),
 }
 
 PENDING = {}
